@@ -106,7 +106,7 @@ def design(x, t, d):
         v = b(np.asarray(x, dtype=float))
         out[i] = np.nan_to_num(v)
     # right end point belongs to the last interval
-    last = np.isclose(x, t[-1])
+    last = np.isclose(x, t[-1], rtol=0.0, atol=1e-14)
     if last.any():
         out[:, last] = 0.0
         out[-1, last] = 1.0
@@ -433,23 +433,30 @@ def check_splinemethod(case, ctx):
         return fails
     ocpS, _ = build_chain_ocp(case, SplineMethod(N=N, grid=make_grid(case["grid"])))
     ocpM, _ = build_chain_ocp(case, MultipleShooting(N=N, M=1, intg="rk", grid=make_grid(case["grid"])))
-    fS = fM = None
-    try:
-        fM = float(ocpM.solve().value(ocpM.objective))
-    except Exception:
-        pass
-    try:
-        fS = float(ocpS.solve().value(ocpS.objective))
-    except Exception:
-        pass
+    # the solver's verdict, not an exception: ipopt may stop at the optimum of these small QPs with a status other than success
+    # ("Search_Direction_Becomes_Too_Small"); only a converged-vs-infeasible disagreement says something about the transcription
+    CONVERGED = ("Solve_Succeeded", "Solved_To_Acceptable_Level", "Search_Direction_Becomes_Too_Small")
+    out = {}
+    for nm, o in (("multiple_shooting", ocpM), ("spline", ocpS)):
+        try:
+            sol = o.solve_limited()
+            out[nm] = (sol.stats["return_status"], float(sol.value(o.objective)))
+        except Exception as ex:
+            out[nm] = ("exception: " + str(ex).strip().splitlines()[-1][:80], None)
     ctx.count("solves", 2)
-    if fM is None and fS is None:
+    stM, fM = out["multiple_shooting"]
+    stS, fS = out["spline"]
+    if {stM, stS} <= {"Infeasible_Problem_Detected"}:
         ctx.count("chain_problem_not_solvable_by_either_method")   # e.g. more boundary conditions than degrees of freedom
         return fails
-    if (fM is None) != (fS is None):
-        fails.append(Fail("only-one-method-solves", feats, {"spline": fS, "multiple_shooting": fM}))
+    if (stM in CONVERGED and stS == "Infeasible_Problem_Detected") or (stS in CONVERGED and stM == "Infeasible_Problem_Detected"):
+        fails.append(Fail("only-one-method-solves", feats, {"spline": [stS, fS], "multiple_shooting": [stM, fM]}))
         return fails
-    if not close(fS, fM, 1e-6, 1e-7):
+    if not (stM in CONVERGED and stS in CONVERGED):
+        ctx.count("solver_did_not_converge:" + (stS if stS not in CONVERGED else stM)[:40])
+        return fails
+    tight = stM == stS == "Solve_Succeeded"
+    if not close(fS, fM, 1e-6 if tight else 1e-4, 1e-7 if tight else 1e-5):
         fails.append(Fail("optimum-differs-from-multiple-shooting", feats, {"spline": fS, "multiple_shooting": fM}))
     return fails
 
